@@ -9,7 +9,46 @@ from ..x86 import Unknown, lo, ext, C
 from .c01 import wrap, report
 
 U = 'codegen.c'
-SIZES = (('char', 1), ('short', 2), ('int', 4), ('long', 8), ('uchar', 1), ('ushort', 2), ('uint', 4), ('ulong', 8), ('ptr', 8), ('bool', 1))
+SIZES = (('char', 1), ('short', 2), ('int', 4), ('long', 8), ('uchar', 1), ('ushort', 2), ('uint', 4), ('ulong', 8), ('ptr', 8), ('bool', 1),
+         ('float', 4), ('double', 8))
+FLOATING = ('float', 'double')      # children of these classes leave their value in %xmm0; cmpxchg/xchg work on general registers
+
+
+def fbits(t):
+    """bit-level reading of the terms that carry a floating value unchanged between %xmm registers, general registers and memory:
+    bits(frombits(x)) = x, bits(load-as-float(a)) = load-as-integer(a), a floating store stores the bits of the value"""
+    if not isinstance(t, tuple):
+        return t
+    t = tuple(fbits(x) if isinstance(x, tuple) else x for x in t)
+    k = t[0]
+    if k == 'lo' and isinstance(t[2], tuple) and t[2][0] == 'bits' and t[2][1] == t[1]:
+        return t[2]
+    if k == 'fval':
+        t = ('bits', t[1], t[2]); k = 'bits'
+    if k == 'bits' and isinstance(t[2], tuple):
+        x = t[2]
+        if x[0] == 'frombits' and x[1] == t[1]:
+            return lo(t[1], x[2])
+        if x[0] == 'fmem' and x[1] == t[1]:
+            return ('mem', t[1], x[2])
+    if k == 'frombits' and isinstance(t[2], tuple):
+        x = t[2]
+        if x[0] == 'bits' and x[1] == t[1]:
+            return x[2]
+        if x[0] == 'mem' and x[1] == t[1]:
+            return ('fmem', t[1], x[2])
+    return t
+
+
+def bitsof(w, t):
+    """the low w bits of a term, floating moves read at bit level"""
+    return fbits(canon(lo(w, fbits(t))))
+
+
+def value_bits(name, cat, w):
+    """the w-bit pattern of the value a child of type class `cat` leaves (contract of the children)"""
+    _, V = child_value(name, cat)
+    return ('bits', w, V) if cat in FLOATING else canon(lo(w, V))
 
 
 def resolve_cas(t, succeeded):
@@ -21,9 +60,12 @@ def resolve_cas(t, succeeded):
     return tuple(resolve_cas(x, succeeded) if isinstance(x, tuple) else x for x in t)
 
 
+FPNOTE = ' (a float/double operand is produced in %xmm0 and a float/double load goes to %xmm0: the bits must be moved to the general register the instruction uses)'
+
+
 def r163(cg, rep):
-    rep.rule('R16.3', 'compare-and-swap: expected value loaded from *old with the object width, `lock cmpxchg` with the new value in a register of the object width on the object itself, result from ZF, and on failure (only) the observed value written back through the saved `old` pointer with the object width', floor=10)
-    rep.rule('R16.4', 'exchange: `xchg` with the object as memory operand and a register of the object width; the old value is left in the register convention of the object type', floor=10)
+    rep.rule('R16.3', 'compare-and-swap: expected value loaded from *old with the object width, `lock cmpxchg` with the new value in a register of the object width on the object itself, result from ZF, and on failure (only) the observed value written back through the saved `old` pointer with the object width; for float/double objects the bit patterns of the operands are what is compared and stored', floor=10)
+    rep.rule('R16.4', 'exchange: `xchg` with the object as memory operand and a register of the object width; the old value is left in the register convention of the object type (%xmm0 for float/double)', floor=10)
     where = '%s:%d' % (U, cg.cu.fn('gen_expr').line)
     for cat, size in SIZES:
         w = size * 8
@@ -39,6 +81,7 @@ def r163(cg, rep):
         pack = run_paths(cg, 'gen_expr', mk)
         key = '%s:gen_expr:ND_CAS/%s' % (U, cat)
         nstates = 0
+        nshape = 0
         outcomes = set()
         for ctx, tr, finals, cats, it in pack:
             if isinstance(finals, Exception):
@@ -46,7 +89,7 @@ def r163(cg, rep):
             for s in finals:
                 nstates += 1
                 cx = [e for e in s.events if e[0] == 'cmpxchg']
-                _, Vnew = child_value('cas_new', cat)
+                Vnew = value_bits('cas_new', cat, w)
                 A = ('addr', ('r', 'cas_addr', 64), 0)
                 O = ('addr', ('r', 'cas_old', 64), 0)
                 msg = None
@@ -60,13 +103,14 @@ def r163(cg, rep):
                         msg = 'cmpxchg operates on %d bits but the atomic object has %d: neighbouring bytes are compared/overwritten or part of the object is ignored' % (cw, w)
                     elif addr != A:
                         msg = 'cmpxchg operates on %r, not on the atomic object (value of the first operand)' % (addr,)
-                    elif canon(lo(w, expected)) != ('mem', w, O):
-                        msg = 'the comparand in the accumulator is %r, expected the %d-bit object *old' % (canon(lo(w, expected)), w)
-                    elif canon(lo(w, new)) != canon(lo(w, Vnew)):
-                        msg = 'the value offered to cmpxchg is %r, expected the third operand (%r)' % (canon(lo(w, new)), canon(lo(w, Vnew)))
+                    elif bitsof(w, expected) != ('mem', w, O):
+                        msg = 'the comparand in the accumulator is %r, expected the %d-bit object *old%s' % (bitsof(w, expected), w, FPNOTE if cat in FLOATING else '')
+                    elif bitsof(w, new) != Vnew:
+                        msg = 'the value offered to cmpxchg is %r, expected the third operand (%r)%s' % (bitsof(w, new), Vnew, FPNOTE if cat in FLOATING else '')
                 rep.ob('R16.3', key + ':cmpxchg', msg is None, 'compare-and-swap on %s: %s' % (cat, msg), where=where, facts={'trace': tr.text()})
                 if msg is not None:
                     continue
+                nshape += 1
                 ok_paths = [c for c in s.cond if c[0][0] in ('cas_ok', 'cas_failed')]
                 succeeded = None
                 for c, truth in ok_paths:
@@ -83,10 +127,10 @@ def r163(cg, rep):
                 if succeeded:
                     rep.ob('R16.3', key + ':no-store-on-success', not stores, 'on success %d store(s) are performed (%r): the expected-value object must stay untouched' % (len(stores), stores[:1]), where=where, facts={'trace': tr.text()})
                 else:
-                    ok = len(stores) == 1 and stores[0][0] == O and stores[0][1] == w and canon(lo(w, resolve_cas(stores[0][2], False))) == ('observed', w, A, 1)
+                    ok = len(stores) == 1 and stores[0][0] == O and stores[0][1] == w and bitsof(w, resolve_cas(stores[0][2], False)) == ('observed', w, A, 1)
                     rep.ob('R16.3', key + ':failure-writes-observed', ok,
-                           'on failure the stores are %r; C11 7.17.7.4: exactly the observed %d-bit value must be written to *old' % ([(a, ww, canon(lo(ww, resolve_cas(v, False)))) for a, ww, v, k in stores], w), where=where, facts={'trace': tr.text()})
-        if nstates and outcomes != {True, False}:
+                           'on failure the stores are %r; C11 7.17.7.4: exactly the observed %d-bit value must be written to *old' % ([(a, ww, bitsof(ww, resolve_cas(v, False))) for a, ww, v, k in stores], w), where=where, facts={'trace': tr.text()})
+        if nshape and outcomes != {True, False}:
             rep.ob('R16.3', key + ':both-outcomes', False, 'only outcome(s) %s of the compare-and-swap are reachable in the emitted code' % sorted(outcomes), where=where)
         if nstates == 0:
             rep.undecided('R16.3', key, 'no path', where=where)
@@ -103,7 +147,7 @@ def r163(cg, rep):
 
         def chk(s, cat=cat, w=w):
             xs = [e for e in s.events if e[0] == 'xchg']
-            _, Vn = child_value('rhs', cat)
+            Vn = value_bits('rhs', cat, w)
             A = ('addr', ('r', 'lhs', 64), 0)
             if len(xs) != 1:
                 return False, '%d xchg instructions with a memory operand, one expected (xchg with memory is the only implicitly locked form)' % len(xs)
@@ -112,10 +156,13 @@ def r163(cg, rep):
                 return False, 'xchg operates on %r, not on the atomic object' % (addr,)
             if xw != w:
                 return False, 'xchg moves %d bits, the object has %d' % (xw, w)
-            if canon(lo(w, new)) != canon(lo(w, Vn)):
-                return False, 'xchg stores %r, expected the second operand' % (canon(lo(w, new)),)
+            if bitsof(w, new) != Vn:
+                return False, 'xchg stores %r, expected the second operand (%r)%s' % (bitsof(w, new), Vn, FPNOTE if cat in FLOATING else ''), ('floating-operand-not-moved-to-a-general-register' if cat in FLOATING else None)
             # result in the register convention of the type
             old = ('mem', w, A)
+            if cat in FLOATING:
+                got = fbits(s.xmm.get(0, ('xinit', 0)))
+                return got == ('fmem', w, A), 'the old value of the %s object is left as %r in %%xmm0; an expression of type %s is expected in %%xmm0 with the bits the exchange fetched (%r)' % (cat, got, cat, ('fmem', w, A)), 'floating-result-not-in-xmm0'
             if cat in INTSZ and INTSZ[cat] < 4:
                 if cat in UNSIGNED:
                     want, ww = ext('zx', w, 64, old), 64
@@ -146,7 +193,7 @@ def tree_kinds(it, n, E, seen=None, depth=0):
 
 
 def r161(P, rep):
-    rep.rule('R16.1', 'every compound assignment (and ++/--) on an _Atomic lvalue - variable, dereference or member, of integer or pointer type - is rewritten to the compare-exchange retry loop', floor=9)
+    rep.rule('R16.1', 'every compound assignment (and ++/--) on an _Atomic lvalue - variable, dereference or member, of integer, pointer or floating type - is rewritten to the compare-exchange retry loop', floor=9)
     rep.rule('R16.2', 'shape of the retry loop: address of the lvalue taken once, operand evaluated once before the loop, new = old op val in the body, condition is !CAS(addr, &old, new), value of the expression is new', floor=5)
     pu = P.unit('parse.c')
     if 'to_assign' not in pu.functions:
@@ -181,7 +228,7 @@ def r161(P, rep):
         return b, lhs, rhs
 
     for lkind in ('ND_VAR', 'ND_DEREF', 'ND_MEMBER'):
-        for tname in ('int', 'long', 'char', 'ptr', 'uchar'):
+        for tname in ('int', 'long', 'char', 'ptr', 'uchar', 'float', 'double'):
             for atomic in (True, False):
                 it = Interp(P, pu, {'opaque': ['new_unique_name', 'error_tok'], 'models': {'new_lvar': lambda it_, ctx, n, a: Obj('Obj', lazy=False, label=ctx.fresh('tmp'), fields={'ty': a[1], 'name': a[0]})}})
                 box = {}
@@ -202,15 +249,17 @@ def r161(P, rep):
                 uses_B = sum(1 for n in nodes if n is box['r'])
                 if atomic:
                     rep.ob('R16.1', key, has_cas, 'op= on an _Atomic %s lvalue (%s) is rewritten to a plain load/modify/store (%s): concurrent updates can be lost' % (tname, lkind, '; '.join(k for k in kinds if k)[:80]), where=where)
-                    if has_cas and lkind == 'ND_VAR' and tname == 'int':
-                        loop_shape(it, rep, outs[0], box, E, NK, where)
+                    if has_cas:
+                        # the loop and the types of its temporaries for every lvalue shape and object type (a temporary typed by a promoted or
+                        # otherwise different type is refreshed only partially by a failed exchange)
+                        loop_shape(it, rep, outs[0], box, E, NK, where, '' if (lkind, tname) == ('ND_VAR', 'int') else '/%s/%s' % (lkind, tname))
                 # single evaluation (R04.6): the operand B exactly once; the lvalue (or its base) exactly once
                 rep.ob('R16.2', key + ':operands-evaluated-once', uses_B == 1 and (uses_A == 1 or lkind == 'ND_MEMBER'),
                        'in the rewrite of `A op= B` the lvalue occurs %d time(s) and the operand %d time(s): side effects would be repeated or dropped' % (uses_A, uses_B), where=where)
 
 
-def loop_shape(it, rep, root, box, E, NK, where):
-    key = 'parse.c:to_assign:cas-loop'
+def loop_shape(it, rep, root, box, E, NK, where, variant=''):
+    key = 'parse.c:to_assign:cas-loop' + variant
     def kind(n):
         return NK.get(n.fields.get('kind')) if isinstance(n, Obj) else None
     body = []
@@ -413,6 +462,152 @@ def r165(P, rep):
             rep.undecided('R16.5', 'stdatomic.h:%s' % mname, 'macro outside the evaluated C subset: %s' % e, where=where)
 
 
+def r165_typed(P, rep):
+    """include/stdatomic.h on objects of every integer width and signedness: the expanded macros are evaluated with C's types (sa/lib_c16.py):
+    each temporary has the width of its declared type (`typeof(expr)` follows promotion and the usual arithmetic conversions), and the
+    compare-exchange builtin compares / refreshes exactly sizeof(object) bytes of the expected-value object (that is what R16.3 establishes for
+    the emitted code). A temporary that is wider than the object keeps stale upper bytes over a failed exchange, a narrower one is overrun;
+    a conversion of the new value through a narrower type loses bits. Required under every interference schedule, as in R16.5: one indivisible
+    update old -> old op val, and the value yielded is the value the object held immediately before it."""
+    from ..lib_minic import parse_macros, expand, tokenize, Parser, NotInSubset
+    from ..lib_c16 import TypedEval, TCell, TShared, Diverges, CTYPES, PYOP, wrap, tname
+    rep.rule('R16.8', 'include/stdatomic.h, evaluated with C types on atomic objects of every integer width and signedness: the temporaries of the generic read-modify-write macros have the width of the atomic object (the compare-exchange builtin reads and refreshes exactly sizeof(object) bytes of the expected-value object), no conversion on the way loses or invents bits, and atomic_fetch_* / atomic_exchange yield the value the object held immediately before their own update under any interference, including interference that changes the sign of the object', floor=100)
+    where = 'include/stdatomic.h'
+    try:
+        macros = parse_macros(open(P.header('include/stdatomic.h')).read())
+    except NotInSubset as e:
+        rep.undecided('R16.8', 'stdatomic.h:macros', 'header macros not parseable: %s' % e, where=where); return
+
+    def parse(src):
+        ps = Parser(expand(tokenize(src), macros) + [('p', ';')], typenames=())
+        e = ps.expr()
+        if ps.peek() != ('p', ';'):
+            raise NotInSubset('trailing tokens after the expansion of %s' % src)
+        return e
+
+    def corners(t):
+        n = t[1] * 8
+        if t[2]:
+            return [0, 1, (1 << n) - 1, (1 << (n - 1)) - 1, 1 << (n - 1), 5]
+        return [0, 1, -1, (1 << (n - 1)) - 1, -(1 << (n - 1)), 5]
+
+    def schedules(t):
+        cs = corners(t)
+        out = [{}]
+        for k in (0, 1, 2):
+            out += [{k: a} for a in cs]
+        out += [{1: a, 2: b} for a in cs[:5] for b in cs[:5] if a != b]
+        return out
+
+    def run(e, t, init, vt, val, inj, extra=None):
+        obj = TShared(t, init, inj)
+        env = {'P': TCell(('ptr', t), obj, 'P'), 'V': TCell(vt, val, 'V'), 'ORDER': TCell(CTYPES['int'], 5, 'ORDER')}
+        env.update(extra or {})
+        ev = TypedEval()
+        return ev.ev(e, env), obj, ev.ty(e, ev.tenv(env))
+
+    VALS = ((CTYPES['int'], 1), (CTYPES['uint'], 0xfffffff5))
+    for name in ('add', 'sub', 'or', 'xor', 'and'):
+        op = {'add': '+', 'sub': '-', 'or': '|', 'xor': '^', 'and': '&'}[name]
+        for suffix, nargs in (('', 2), ('_explicit', 3)):
+            mname = 'atomic_fetch_%s%s' % (name, suffix)
+            if mname not in macros:
+                continue                      # R16.5 reports the missing definition
+            try:
+                e = parse('%s(P, V%s)' % (mname, ', ORDER' if nargs == 3 else ''))
+            except NotInSubset as x:
+                rep.undecided('R16.8', 'stdatomic.h:%s' % mname, 'macro outside the evaluated C subset: %s' % x, where=where); continue
+            for cat, t in CTYPES.items():
+                key = 'stdatomic.h:%s:object/%s' % (mname, cat)
+                bad = None
+                try:
+                    cs = corners(t)
+                    for init in (cs[3], cs[2], 5):
+                        for vt, val in VALS:
+                            for inj in schedules(t):
+                                if bad:
+                                    break
+                                sched = 'a %s object holding %d, operand (%s)%d%s' % (tname(t), wrap(t, init), tname(vt), val, '' if not inj else '; other threads store %r right before this operation\'s accesses number %r' % ([wrap(t, x) for x in inj.values()], list(inj)))
+                                try:
+                                    res, obj, rt = run(e, t, init, vt, val, inj)
+                                except Diverges:
+                                    bad = ('retry-loop-never-terminates', 'repeats a state of its retry loop with no interference left: it never terminates (%s)' % sched); continue
+                                ups = obj.updates
+                                if obj.fault:
+                                    bad = (obj.fault[0], '%s (%s)' % (obj.fault[1], sched)); continue
+                                if len(ups) != 1:
+                                    bad = ('updates', 'performs %d updates of the object (%r), exactly one indivisible update expected (%s)' % (len(ups), ups, sched)); continue
+                                old, new, how = ups[0]
+                                want = wrap(t, PYOP[op](old, val))
+                                if how == 'plain-store':
+                                    bad = ('not-indivisible', 'updates the object with a plain store computed from an earlier read (%s)' % sched); continue
+                                if new != want:
+                                    bad = ('wrong-update', 'the object held %d right before the update and becomes %d, expected %d: a conversion on the way to the compare-exchange loses or invents bits (%s)' % (old, new, want, sched)); continue
+                                if res != old:
+                                    bad = ('yields-new-value' if res == new else 'yields-value-the-object-never-held' if res not in obj.seen else 'yields-other-value',
+                                           'yields (%s)%d; the object held %d immediately before the update (values at this operation\'s accesses: %r): C11 7.17.7.5p3. A temporary that is refreshed by a failed compare-exchange must have exactly the type of the atomic object - the builtin rewrites sizeof(object) bytes of it, the remaining bytes keep the extension of the stale sample (%s)'
+                                           % (tname(rt), res, old, obj.seen, sched))
+                except NotInSubset as x:
+                    rep.undecided('R16.8', key, 'macro outside the evaluated C subset: %s' % x, where=where); continue
+                rep.ob('R16.8', key if not bad else key + ':' + bad[0], bad is None, '%s %s' % (mname, bad[1] if bad else ''), where=where)
+    for mname, nargs in (('atomic_exchange', 2), ('atomic_exchange_explicit', 3)):
+        if mname not in macros:
+            continue
+        try:
+            e = parse('%s(P, V%s)' % (mname, ', ORDER' if nargs == 3 else ''))
+        except NotInSubset as x:
+            rep.undecided('R16.8', 'stdatomic.h:%s' % mname, 'macro outside the evaluated C subset: %s' % x, where=where); continue
+        for cat, t in CTYPES.items():
+            key = 'stdatomic.h:%s:object/%s' % (mname, cat)
+            bad = None
+            try:
+                cs = corners(t)
+                for init in (cs[3], cs[2]):
+                    for vt, val in ((CTYPES['int'], -2), (CTYPES['int'], 200), (CTYPES['uint'], 0xfffffff5)):
+                        for inj in ({}, {0: cs[4]}, {0: cs[2]}, {0: 0}, {1: cs[4]}):
+                            res, obj, rt = run(e, t, init, vt, val, inj)
+                            sched = 'a %s object holding %d, operand (%s)%d, other threads store %r' % (tname(t), wrap(t, init), tname(vt), val, inj)
+                            ups = obj.updates
+                            if len(ups) != 1 or ups[0][2] != 'xchg':
+                                bad = bad or ('updates', 'does not perform exactly one exchange: %r (%s)' % (ups, sched))
+                            elif ups[0][1] != wrap(t, val):
+                                bad = bad or ('wrong-update', 'stores %d, expected the operand converted to the object type, %d (%s)' % (ups[0][1], wrap(t, val), sched))
+                            elif res != ups[0][0]:
+                                bad = bad or ('yields-other-value', 'yields (%s)%d, the object held %d right before the exchange (%s)' % (tname(rt), res, ups[0][0], sched))
+            except (NotInSubset, Diverges) as x:
+                rep.undecided('R16.8', key, 'macro outside the evaluated C subset: %s' % x, where=where); continue
+            rep.ob('R16.8', key if not bad else key + ':' + bad[0], bad is None, '%s %s' % (mname, bad[1] if bad else ''), where=where)
+    for mname in ('atomic_compare_exchange_strong', 'atomic_compare_exchange_weak'):
+        if mname not in macros:
+            continue
+        try:
+            e = parse('%s(P, E, N)' % mname)
+        except NotInSubset as x:
+            rep.undecided('R16.8', 'stdatomic.h:%s' % mname, 'macro outside the evaluated C subset: %s' % x, where=where); continue
+        for cat, t in CTYPES.items():
+            key = 'stdatomic.h:%s:object/%s' % (mname, cat)
+            bad = None
+            try:
+                cs = corners(t)
+                for init, expv in ((cs[3], cs[3]), (cs[3], cs[4]), (cs[2], cs[2]), (cs[2], 0), (5, 5)):
+                    for inj in ({}, {0: cs[4]}, {0: cs[3]}, {0: cs[2]}, {0: 0}, {1: cs[4]}, {0: cs[2], 1: cs[3]}):
+                        exp = TCell(t, expv, 'expected')
+                        res, obj, rt = run(e, t, init, CTYPES['int'], 0, inj, {'E': TCell(('ptr', t), exp, 'E'), 'N': TCell(CTYPES['int'], 42, 'N')})
+                        sched = 'a %s object holding %d, expected %d, other threads store %r' % (tname(t), wrap(t, init), wrap(t, expv), inj)
+                        if obj.fault:
+                            bad = bad or (obj.fault[0], '%s (%s)' % (obj.fault[1], sched))
+                        elif res:
+                            if [(u[0], u[1], u[2]) for u in obj.updates] != [(wrap(t, expv), 42, 'cas')] or exp.get() != wrap(t, expv):
+                                bad = bad or ('success-without-one-indivisible-update', 'reports success with updates %r and expected = %d (%s)' % (obj.updates, exp.get(), sched))
+                        elif obj.updates:
+                            bad = bad or ('failure-with-update', 'reports failure but updated the object: %r (%s)' % (obj.updates, sched))
+                        elif exp.get() == wrap(t, expv) or exp.get() not in obj.seen:
+                            bad = bad or ('failure-does-not-hand-back-an-observed-value', 'reports failure and leaves %d in the expected-value object; the object held %r at its accesses (%s)' % (exp.get(), obj.seen, sched))
+            except (NotInSubset, Diverges) as x:
+                rep.undecided('R16.8', key, 'macro outside the evaluated C subset: %s' % x, where=where); continue
+            rep.ob('R16.8', key if not bad else key + ':' + bad[0], bad is None, '%s %s' % (mname, bad[1] if bad else ''), where=where)
+
+
 def r166(P, rep):
     rep.rule('R16.6', '_Atomic is recorded on a private copy of the type, never on the shared type objects; CAS/exchange operands are converted to the type of the atomic object', floor=25)
     pu = P.unit('parse.c')
@@ -470,6 +665,7 @@ def run(P, rep, tier):
     r163(cg, rep)
     r161(P, rep)
     r165(P, rep)
+    r165_typed(P, rep)
     r166(P, rep)
     r166_forms(P, rep)
     from ..lib_types import r_atomic_builtin_operands
